@@ -1190,6 +1190,9 @@ func (app *App) disableSemiSyncOnSlaves(becomeInactive, becomeDataLag []string) 
 
 func (app *App) enableSemiSyncOnSlave(host string, slaveState, masterState *nodestate.NodeState) error {
 	node := app.cluster.Get(host)
+	if node == nil {
+		return fmt.Errorf("host %s is not a registered cluster host", host)
+	}
 	err := node.SemiSyncSetSlave()
 	if err != nil {
 		app.logger.Error().Err(err).Msgf("failed to enable semi_sync_slave on %s", host)
@@ -1222,6 +1225,10 @@ func (app *App) enableSemiSyncOnSlave(host string, slaveState, masterState *node
 
 func (app *App) disableSemiSyncOnSlave(host string, restartIOThread bool) error {
 	node := app.cluster.Get(host)
+	if node == nil {
+		// host left the registry (background refresh) after this iteration probed it
+		return fmt.Errorf("host %s is not a registered cluster host", host)
+	}
 	err := node.SemiSyncDisable()
 	if err != nil {
 		app.logger.Error().Err(err).Msgf("failed to disable semi_sync_slave on %s", host)
